@@ -212,14 +212,42 @@ class NumStr(SpecialStr):
         raise Unmodelled('parse::<%s> of NumStr' % ty)
 
 
+def rust_str_debug(t):
+    """<str as Debug>::fmt of a concrete text (char::escape_debug_ext with grapheme-extend escaping; the Unicode tables
+    are approximated by Python's unicodedata: Cc Cf Cs Co Cn Zl Zp and non-space Zs unprintable, Mn Me extenders)"""
+    import unicodedata
+    out = ['"']
+    for ch in t:
+        if ch in '"\\':
+            out.append('\\' + ch)
+        elif ch == '\n':
+            out.append('\\n')
+        elif ch == '\r':
+            out.append('\\r')
+        elif ch == '\t':
+            out.append('\\t')
+        elif ch == '\0':
+            out.append('\\0')
+        else:
+            cat = unicodedata.category(ch)
+            if cat in ('Cc', 'Cf', 'Cs', 'Co', 'Cn', 'Zl', 'Zp', 'Mn', 'Me') or (cat == 'Zs' and ch != ' '):
+                out.append('\\u{%x}' % ord(ch))
+            else:
+                out.append(ch)
+    out.append('"')
+    return ''.join(out)
+
+
 def render_value(ctx, v, kind='display', ty=''):
     """-> Str for one formatted argument"""
     v0 = v
     v = ctx.deref(v)
     if isinstance(v, Str):
         if kind == 'debug':
+            if hasattr(v, 'debug_hook'):
+                return v.debug_hook(ctx)
             if v.s is not None:
-                return Str('"' + v.s.replace('\\', '\\\\').replace('"', '\\"') + '"')
+                return Str(rust_str_debug(v.s))
             raise Unmodelled('Debug of symbolic string')
         return v
     if isinstance(v, EnumV) and v.ty == 'Cow':
@@ -474,7 +502,7 @@ def _fmt_target(ctx, v):
     return v, None
 
 
-@model(r'^std::fmt::Formatter::write_str$|^<std::fmt::Formatter<\'_> as (std::fmt::)?Write>::write_str$|^core::fmt::Formatter::write_str$')
+@model(r'^Formatter::write_str$|^std::fmt::Formatter::write_str$|^<std::fmt::Formatter<\'_> as (std::fmt::)?Write>::write_str$|^core::fmt::Formatter::write_str$')
 def m_fmt_write_str(ctx, args, callee):
     f, _ = _fmt_target(ctx, args[0])
     f.out = concat_any(ctx, f.out, as_str(ctx, args[1]))
@@ -491,7 +519,7 @@ def m_fmt_write_char(ctx, args, callee):
     return ok(UNIT)
 
 
-@model(r'^std::fmt::Formatter::write_fmt$|^<std::fmt::Formatter<\'_> as (std::fmt::)?Write>::write_fmt$|^core::fmt::Formatter::write_fmt$')
+@model(r'^Formatter::write_fmt$|^std::fmt::Formatter::write_fmt$|^<std::fmt::Formatter<\'_> as (std::fmt::)?Write>::write_fmt$|^core::fmt::Formatter::write_fmt$')
 def m_fmt_write_fmt(ctx, args, callee):
     f, _ = _fmt_target(ctx, args[0])
     f.out = concat_any(ctx, f.out, render(ctx, args[1]))
